@@ -1982,6 +1982,12 @@ def _sel_count(oracle, v, size):
   return None
 
 
+# Compositions that evaluate their operand (hence its schedule) more than once
+# per call.
+MULTI_EVAL = ('step-reaches/repeat', 'step-reaches/power', 'step-reaches/for_each',
+              'step-reaches/nested')
+
+
 def drv_schedules(tier, seed):
   random.seed(f'c14/drv_schedules/{seed}')   # code under test falls back to the global RNG
   quick = tier == 'quick'
@@ -1994,9 +2000,12 @@ def drv_schedules(tier, seed):
       'abs neg floor ceil pow sqrt log; StepWise by length and by proportion; linear / exponential / '
       'cosine decay, cyclic; seeded Uniform / Triangular) x steps 0..9 x '
       f'{len(slots)} parameter slots (n of First/Last/Top(+cluster)/Bottom/Random(+replacement)/Sample/'
-      'Proportional; k of Repeat, Power, KPoint, where.Any; Slice index; Choice limit and '
-      'probabilities; until_change max_attempts; a scheduled selector below every composition '
-      'operator; reproduction and population_update of an Evolution loop) on populations of 5/8 DNAs')
+      'Proportional for every schedule; for one schedule per family: k of Repeat, Power, Slice index, '
+      'Choice limit and probabilities, until_change max_attempts; for 8 probe schedules: k of KPoint and '
+      'where.Any, Repeat/Power/until_change of mutators, a scheduled selector below every composition '
+      'operator, reproduction and population_update of an Evolution loop) on populations of 5/8 DNAs. '
+      'Reference: python functions were compared with literal values at every slot, all other schedules '
+      'with the python function returning the denoted values (same operator, called at steps 0, 1, 2, ...)')
   r = rng(seed, 'c14-sched')
   flat = space('flat')
   sel_pops = {}
@@ -2004,6 +2013,15 @@ def drv_schedules(tier, seed):
     sel_pops[size] = with_fitness([pg.random_dna(flat, r) for _ in range(size)], r)
   dna_spaces = ['flat', 'perm', 'multi-DS', 'floats']
   dna_pops = {name: with_fitness(parents_of(name, r, 4), r) for name in dna_spaces}
+  psrcs = {}
+
+  def pop_source(name, pop):
+    k = (name, id(pop[0]) if pop else 0, len(pop) if pop is not None else -1)
+    if k not in psrcs:
+      psrcs[k] = (pop_src(name, pop, fitness=True) +
+                  'for i, d in enumerate(pop): base.set_generation_id(d, i % 3)\n'
+                  if pop is not None else spec_src(name))
+    return psrcs[k]
 
   def case(cid, key, ok, msg='', wit=''):
     if ok:
@@ -2011,46 +2029,64 @@ def drv_schedules(tier, seed):
     else:
       rec.case(cid, key, False, msg() if callable(msg) else msg, wit() if callable(wit) else wit)
 
-  few = {}      # per family: the first schedule only (for the expensive slots)
+  first = {}      # per (family, kind): the first schedule
   for sc in cat:
-    few.setdefault((sc['family'], sc['kind']), sc['src'])
+    first.setdefault((sc['family'], sc['kind']), sc['src'])
+  probes = {first[k] for k in (('step', 'count'), ('floor', 'count'), ('ceil', 'count'), ('floordiv', 'count'),
+                               ('stepwise', 'count'), ('div', 'proportion'), ('linear', 'proportion'),
+                               ('stepwise', 'proportion'))}
+  evo_done = set()
 
   for ci, sc in enumerate(cat):
     fam, kind, ssrc = sc['family'], sc['kind'], sc['src']
     steps = list(range(sc['steps']))
     is_random = kind.startswith('random')
-    first_of_family = few[(fam, kind)] == ssrc
+    anchor = fam == 'python-lambda'
+    first_of_family = first[(fam, kind)] == ssrc
+    is_probe = ssrc in probes or anchor
     # What the schedule itself yields (only used to name a failure: a wrong
     # value / type reaching the operators is filed under the schedule family,
     # a correct value mishandled by an operator under the parameter slot).
     try:
       inst = make(ssrc)
-      vals = [inst(s) for s in steps] if (sc['stateful'] or is_random) else [make(ssrc)(s) for s in steps]
+      vals = [inst(s) for s in steps]
     except Exception as e:  # pylint: disable=broad-except
       vals = [e] * len(steps)
     if is_random:
       lo, hi = sc['range']
-      refs = None
+      refs = table = None
       sched_ok = all(type(v) is type(lo) and lo <= v <= hi for v in vals)  # pylint: disable=unidiomatic-typecheck
     else:
-      refs = [sc['ref'](s) for s in steps]
+      refs = [sc['ref'](s) for s in range(len(steps) if sc['stateful'] else 24)]
       sched_ok = all(_value_ok(v, x) for v, x in zip(vals, refs))
-    table = None if refs is None else '(lambda step: %r[step])' % (
-        {s: sc['ref'](s) for s in range(40)} if not sc['stateful'] else dict(zip(steps, refs)),)
-
-    def cid(slot, check):
-      return (f'scheduled.{slot}.{check}' if sched_ok
-              else f'schedule/{fam}.wrong-value-reaches-operators')
+      table = '(lambda step: %r[step])' % (dict(enumerate(refs)),)
 
     for li, (slot, tmpl, accepts, okind) in enumerate(slots):
-      a_src = tmpl.format(n=ssrc)
-      expensive = okind.startswith('dna') or okind == 'evolution' or slot.startswith('step-reaches/')
-      if expensive and not first_of_family and (quick or okind == 'evolution'):
+      context = slot.startswith('step-reaches/')
+      dna = okind.startswith('dna')
+      if okind.startswith('selector'):
+        pass
+      elif okind == 'list' and not context:
+        if not (first_of_family or is_probe) and quick:
+          continue
+      elif okind == 'evolution':
+        if sc['stateful'] or is_random or (fam, kind) in evo_done:
+          continue
+        if not (is_probe or not quick):
+          continue
+      elif not (is_probe or (first_of_family and not quick)):
         continue
+
+      def cid(check):
+        if sched_ok:
+          return f'scheduled.{slot}.{check}'
+        return f'schedule/{fam}.wrong-value-reaches-operators'
+
+      a_src = tmpl.format(n=ssrc)
       if okind.startswith('selector') or okind == 'list':
         size = (5, 8)[(ci + li) % 2]
         pops = [('flat', sel_pops[size])] if quick else [('flat', sel_pops[5]), ('flat', sel_pops[8])]
-      elif okind.startswith('dna'):
+      elif dna:
         k = int(okind[4:])
         names = [dna_spaces[(ci + li) % len(dna_spaces)]] if quick else dna_spaces
         if 'Order(' in tmpl:
@@ -2060,13 +2096,12 @@ def drv_schedules(tier, seed):
         pops = [('flat', None)]
       for name, pop in pops:
         size = len(pop) if pop is not None else 0
-        psrc = pop_src(name, pop, fitness=True) if pop is not None else spec_src(name)
-        if pop is not None:
-          psrc += 'for i, d in enumerate(pop): base.set_generation_id(d, i % 3)\n'
+        psrc = pop_source(name, pop)
         key0 = (slot, a_src, name, size)
+        check_inputs = pop is not None and (is_probe or first_of_family)
         # -------------------------------------------------------------- random
         if is_random:
-          if not okind.startswith('selector') or kind == 'random-proportion' and not accepts(0.5, size):
+          if not okind.startswith('selector'):
             continue
           oracle = okind.split(':')[1]
           lo, hi = sc['range']
@@ -2074,87 +2109,96 @@ def drv_schedules(tier, seed):
           for _ in range(2):
             op = outcome(make, a_src)
             runs.append([run_op(op[1], pop, s) if op[0] == 'ok' else ('exc', op[1].__name__, '') for s in steps])
+          wlo, whi = _sel_count(oracle, lo, size), _sel_count(oracle, hi, size)
           for s, ra, rb in zip(steps, runs[0], runs[1]):
             key = key0 + (s,)
             wit = lambda s=s: (HDR + psrc + f'op = {a_src}\nouts = [op(pop, step=s) for s in range({s + 1})]\n')
             if ra[0] != 'ok' or not isinstance(ra[1], list):
-              case(cid(slot, 'call'), key, False, lambda: 'unexpected ' + _show_run(ra, pop), wit)
+              case(cid('call'), key, False, lambda: 'unexpected ' + _show_run(ra, pop), wit)
               continue
-            case(cid(slot, 'members-only'), key, all(_isin(o, pop) for o in ra[1]),
+            case(cid('members-only'), key, all(_isin(o, pop) for o in ra[1]),
                  lambda: f'output {ra[1]!r} has non-members', wit)
-            wlo, whi = _sel_count(oracle, lo, size), _sel_count(oracle, hi, size)
             if wlo is not None:
-              case(cid(slot, 'documented-count'), key, wlo <= len(ra[1]) <= whi,
+              case(cid('documented-count'), key, wlo <= len(ra[1]) <= whi,
                    lambda: f'{len(ra[1])} outputs at step {s} for n = {ssrc} (values in [{lo}, {hi}]: '
                    f'documented {wlo}..{whi} of {size} inputs)',
                    lambda: wit() + f'assert all({wlo} <= len(o) <= {whi} for o in outs), [len(o) for o in outs]')
-            case(cid(slot, 'deterministic'), key, same_run(ra, rb),
+            case(cid('deterministic'), key, same_run(ra, rb),
                  lambda: f'fresh operators with the same seeds disagree: {_show_run(ra, pop)} vs {_show_run(rb, pop)}',
                  lambda: wit() + f'op2 = {a_src}\nassert [list(map(id, o)) for o in outs] == '
                  f'[list(map(id, op2(pop, step=s))) for s in range({s + 1})]')
           continue
         # ----------------------------------------------------------- evolution
         if okind == 'evolution':
-          if sc['stateful'] or not all(accepts(x, size) for x in refs):
+          n_evo = 10
+          if not all(accepts(x, size) for x in refs[:n_evo + 2]):
             continue
-          b_src = tmpl.format(n=table)
+          evo_done.add((fam, kind))
           S = space(name)
-          ta, tb = evo_trace(a_src, S), evo_trace(b_src, S)
-          case(cid(slot, 'same-as-denoted-values'), key0, ta == tb and isinstance(ta, list),
+          if anchor:
+            continue     # (no literal counterpart of a whole run)
+          b_src = tmpl.format(n=table)
+          ta, tb = evo_trace(a_src, S, n_evo), evo_trace(b_src, S, n_evo)
+          case(cid('same-as-denoted-values'), key0, ta == tb and isinstance(ta, list),
                lambda: 'an Evolution whose selectors use the schedule and one that uses a python function '
-               f'returning the denoted values {refs} diverge: '
+               f'returning the denoted values {refs[:n_evo + 2]} diverge: '
                + (f'{ta!r}'[:200] if not isinstance(ta, list) else
                   f'first difference at proposal #{next((i for i, (p, q) in enumerate(zip(ta, tb)) if p != q), "?")}'
                   if isinstance(tb, list) else f'{tb!r}'[:200]),
-               lambda: HDR + psrc + f'a = {a_src}\nb = {b_src}\nta, tb = evo_trace(a, S), evo_trace(b, S)\n'
+               lambda: HDR + psrc + f'a = {a_src}\nb = {b_src}\nta, tb = evo_trace(a, S, {n_evo}), evo_trace(b, S, {n_evo})\n'
                'assert isinstance(ta, list) and ta == tb, (ta, tb)')
           if isinstance(ta, list):
-            algo = make(a_src)
             bad = None
             for i, (rw, _) in enumerate(ta):
-              c = check_child(mk(S, from_raw(rw)), S)
-              if c:
-                bad = f'proposal #{i}: {c[1]}'
+              v = violation(rw, S)
+              if v:
+                bad = f'proposal #{i}: {v[1]}'
                 break
-            case(cid(slot, 'valid+aligned'), key0, bad is None, bad,
-                 lambda: HDR + psrc + f'a = {a_src}\na.setup(S)\nfor i in range(14):\n  d = a.propose(); '
+            case(cid('valid'), key0, bad is None, bad,
+                 lambda: HDR + psrc + f'a = {a_src}\na.setup(S)\nfor i in range({n_evo}):\n  d = a.propose(); '
                  'assert_child(d, S); a.feedback(d, reward_of(d, False))')
-            del algo
           continue
         # ------------------------------------------------- deterministic kinds
-        dna = okind.startswith('dna')
-        if sc['stateful']:
-          if not all(accepts(x, size) for x in refs):
+        fz = Frozen(pop) if check_inputs else None
+        pairs = []
+        if anchor:
+          # A python function as schedule vs the literal value, fresh operators.
+          ok_steps = [s for s in steps if accepts(refs[s], size)]
+          ok_steps = ok_steps[:2] + ok_steps[4:5] if quick else ok_steps
+          for s in ok_steps:
+            b_src = tmpl.format(n=repr(refs[s]))
+            pairs.append((s, run_op(a_src, pop, s), run_op(b_src, pop, s), b_src))
+          seq = False
+        else:
+          # The schedule vs a python function returning the denoted values;
+          # both operators are called at steps 0, 1, 2, ... (schedules and
+          # seeded operators may carry state from call to call).
+          if sc['stateful'] and not all(accepts(x, size) for x in refs):
             continue
           b_src = tmpl.format(n=table)
           a_op, b_op = outcome(make, a_src), outcome(make, b_src)
-          pairs = []
-          for s in steps:
-            fz = Frozen(pop)
+          use = steps if (not quick or okind.startswith('selector') or sc['stateful']) else steps[:3] + steps[4::5]
+          if dna and quick and not sc['stateful']:
+            use = steps[1:3] + steps[4:5]
+          for s in use:
+            if not accepts(refs[s], size):
+              continue
             ra = run_op(a_op[1], pop, s) if a_op[0] == 'ok' else ('exc', a_op[1].__name__, '')
-            d = fz.diff()
             rb = run_op(b_op[1], pop, s) if b_op[0] == 'ok' else ('exc', b_op[1].__name__, '')
-            pairs.append((s, ra, rb, d, b_src))
+            pairs.append((s, ra, rb, b_src))
           seq = True
-        else:
-          ok_steps = [s for s, x in zip(steps, refs) if accepts(x, size)]
-          if quick and expensive:
-            ok_steps = ok_steps[:2] + ok_steps[4:5] + ok_steps[-1:] if len(ok_steps) > 4 else ok_steps
-          pairs = []
-          for s in ok_steps:
-            b_src = tmpl.format(n=repr(refs[s]))
-            fz = Frozen(pop)
-            ra = run_op(a_src, pop, s)
-            d = fz.diff()
-            rb = run_op(b_src, pop, s)
-            pairs.append((s, ra, rb, d, b_src))
-          seq = False
-        for s, ra, rb, d, b_src in pairs:
+        d = fz.diff() if fz else None
+        if fz:
+          case(cid('inputs-unchanged'), key0, d is None, d,
+               lambda: HDR + psrc + f'a = {a_src}\n'
+               f'assert_unchanged(lambda p: [run_op(a, p, s) for s in {[p[0] for p in pairs]}], pop)')
+        for s, ra, rb, b_src in pairs:
           key = key0 + (s,)
           v = refs[s]
+          called = [p[0] for p in pairs if p[0] <= s]
           if seq:
-            wit = lambda s=s, b_src=b_src: (
-                HDR + psrc + f'a = {a_src}\nb = {b_src}\nfor s in range({s + 1}):\n'
+            wit = lambda s=s, b_src=b_src, called=called: (
+                HDR + psrc + f'a = {a_src}\nb = {b_src}\nfor s in {called}:\n'
                 '  ra, rb = run_op(a, pop, s), run_op(b, pop, s)\n'
                 f'assert same_run(ra, rb, {dna}), (ra, rb)')
           else:
@@ -2162,33 +2206,37 @@ def drv_schedules(tier, seed):
                 HDR + psrc + f'a = {a_src}\nb = {b_src}   # value of the schedule at step {s}\n'
                 f'ra, rb = run_op(a, pop, {s}), run_op(b, pop, {s})\n'
                 f'assert same_run(ra, rb, {dna}), (ra, rb)')
-          case(cid(slot, 'same-as-denoted-value'), key, same_run(ra, rb, dna),
+          same = same_run(ra, rb, dna)
+          the_id = cid('same-as-denoted-value')
+          if not same and sched_ok and sc['stateful'] and slot in MULTI_EVAL:
+            # One defect of its own: a StepWise evaluated twice at one step.
+            the_id = 'schedule/stepwise.evaluated-twice-in-one-step'
+          case(the_id, key, same,
                lambda: f'at step {s} the schedule {ssrc} denotes {v!r}; with the schedule: '
                f'{_show_run(ra, pop)}; with {v!r}: {_show_run(rb, pop)}', wit)
-          case(cid(slot, 'inputs-unchanged'), key, d is None, d,
-               lambda: HDR + psrc + f'a = {a_src}\nassert_unchanged(lambda p: run_op(a, p, {s}), pop)')
           if ra[0] != 'ok' or not isinstance(ra[1], list):
             continue
           if okind.startswith('selector'):
             want = _sel_count(okind.split(':')[1], v, size)
-            case(cid(slot, 'members-only'), key, all(_isin(o, pop) for o in ra[1]),
+            case(cid('members-only'), key, all(_isin(o, pop) for o in ra[1]),
                  lambda: f'output {ra[1]!r} has non-members', wit)
             if want is not None:
-              case(cid(slot, 'documented-count'), key, len(ra[1]) == want,
+              case(cid('documented-count'), key, len(ra[1]) == want,
                    lambda: f'{len(ra[1])} outputs at step {s} for n = {ssrc} (= {v!r}): documented {want} '
                    f'of {size} inputs',
                    lambda: HDR + psrc + f'op = {a_src}\n' + (
-                       f'outs = [op(pop, step=s) for s in range({s + 1})]\nassert len(outs[-1]) == {want}, len(outs[-1])'
+                       f'outs = [op(pop, step=s) for s in {called}]\nassert len(outs[-1]) == {want}, len(outs[-1])'
                        if seq else f'out = op(pop, step={s})\nassert len(out) == {want}, len(out)'))
           elif dna:
             S = space(name)
-            first = None
+            bad = None
             for c in ra[1]:
-              first = check_child(c, S)
-              if first:
+              bad = check_child(c, S)
+              if bad:
                 break
-            case(cid(slot, 'valid+aligned'), key, first is None, first and first[1],
-                 lambda: HDR + psrc + f'a = {a_src}\nfor c in a(pop, step={s}):\n  assert_child(c, S)')
+            case(cid('valid+aligned'), key, bad is None, bad and bad[1],
+                 lambda: HDR + psrc + f'a = {a_src}\nfor s in {called}:\n  out = a(pop, step=s)\n'
+                 'for c in out:\n  assert_child(c, S)')
   return rec.result()
 
 
